@@ -244,7 +244,14 @@ func vfGenL(t *rapid.T) vfLCase {
 	n := rapid.IntRange(1, 12).Draw(t, "steps")
 	for i := 0; i < n; i++ {
 		st := vfLStep{K: rapid.SampledFrom(kinds).Draw(t, "k"), S: rapid.IntRange(0, c.N-1).Draw(t, "s"), Flags: rapid.IntRange(1, 15).Draw(t, "flags"), Mine: rapid.Bool().Draw(t, "mineFlag")}
+		if i == 0 && !big && rapid.Bool().Draw(t, "startFirst") {
+			st.K = "startKeeper" // most queries need a running keeper
+		}
 		c.Steps = append(c.Steps, st)
+		if (strings.HasPrefix(st.K, "bulk:") || st.K == "mine" || st.K == "stop") && rapid.Bool().Draw(t, "askAfter") {
+			// what the miner is offered is asked again right after a change of the mining set
+			c.Steps = append(c.Steps, vfLStep{K: "qualities"})
+		}
 		if big && i == 0 {
 			// the interesting schedule for many spaces: everything is stopped while the freshly started plotter works
 			// through the spaces that were configured to mine
